@@ -73,6 +73,14 @@ class WorldA:
         self.fold: bool = cfg["fold"]
         self.optimize: bool = cfg["optimize"]
         self.checks: set[str] = set(cfg["checks"])
+        # single precision (the library's default dtype) is a swarm member: same oracles, wider
+        # tolerances; the defining relations (I3) are only tracked in double precision
+        self.f32 = cfg.get("dtype") == "float32"
+        self.tol_rel = 2e-4 if self.f32 else 1e-7
+        self.tol_log = 2e-3 if self.f32 else 1e-7
+        self.tol_exact = 1e-5 if self.f32 else 1e-12
+        if self.f32:
+            self.checks.discard("I3")
         self.circs: dict[str, Circ] = {}
         self.order: list[str] = []
         self.ctx: Any = None
@@ -822,7 +830,7 @@ class WorldA:
                           f"its saved state: {str(e)[:120]}")
             for a, b_ in zip(now, outs):
                 self.tr.count("cmp:D2")
-                v_, d_ = compare_outputs(a, b_, self.semiring, rel=1e-12, logabs=1e-12)
+                v_, d_ = compare_outputs(a, b_, self.semiring, rel=self.tol_exact, logabs=self.tol_exact)
                 if v_ == "undefined":
                     self.tr.count("cmp:undefined")
                 elif v_ != "ok":
@@ -971,7 +979,7 @@ class WorldA:
     # ------------------------------------------------------------------ invariants
 
     def _cmp(self, inv: str, c: Circ, a: torch.Tensor, b: torch.Tensor, where: str) -> str:
-        verdict, d = compare_outputs(a, b, self.semiring)
+        verdict, d = compare_outputs(a, b, self.semiring, rel=self.tol_rel, logabs=self.tol_log)
         self.tr.count(f"cmp:{inv}")
         if verdict == "undefined":
             self.tr.count("cmp:undefined")
@@ -1245,7 +1253,7 @@ class WorldA:
                 continue
             for a, b in zip(outs, prev):
                 self.tr.count("cmp:memo")
-                v, d = compare_outputs(a, b, self.semiring, rel=1e-12, logabs=1e-12)
+                v, d = compare_outputs(a, b, self.semiring, rel=self.tol_exact, logabs=self.tol_exact)
                 if v == "undefined":
                     self.tr.count("cmp:undefined")
                     continue
